@@ -105,6 +105,29 @@ chk(
     "Trusted: the reference evaluator (PurePosixPath/PureWindowsPath.match, re.match; only non-empty paths are examined).",
 )
 
+chk(
+    "C04", "wdverif/props/c04.py",
+    "interval-logic trace oracle over logged API-call intervals, dispatch windows and handler entry stamps of concurrent stress trials; sys.monitoring noise and directed line holds",
+    "Exploration of schedules: trials of BaseObserver over scripted emitters with uniquely identified events, 0-3 API threads and "
+    "re-entrant calls; each (event, handler) pair whose registration is determined over the whole dispatch window is judged "
+    "(must receive exactly once / must not receive), plus: nothing delivered twice, per-watch order, every queued event dispatched "
+    "unless it is a legitimate coalescence, no handler called after a removal of it returned. Directed sweeps hold the dispatcher at "
+    "every executed line of dispatch_events (partner: a mutating call aimed at the handler/watch being delivered), an API thread at "
+    "every line of schedule/unschedule/remove_handler/_remove_emitter, and the emitter/dispatcher at every line of the queue's put/_get.",
+    "Trusted: logical stamps taken at the client boundary; queue get/task_done wrapped on the instance to stamp dispatch windows. "
+    "Not exhaustive over interleavings: single directed preemptions at line granularity + noise + natural scheduling.",
+)
+
+chk(
+    "C05", "wdverif/props/c05.py",
+    "same trace oracle as C04, removal-biased workload: handler entry stamps against return stamps of removing calls; emitter liveness/production after unschedule returned",
+    "Exploration of schedules: the C04 engine biased to removals (external and re-entrant unschedule/remove_handler_for_watch/"
+    "unschedule_all/stop at every point of the stream, dispatcher held at each line of dispatch_events while the removing call runs and "
+    "vice versa); a callback whose entry stamp is later than the return stamp of a call that removed it (no re-adding call started in "
+    "between) is a violation, as is an emitter alive or queueing after unschedule returned.",
+    "Trusted: one logical clock (itertools.count) for all stamps; scripted emitters.",
+)
+
 _PENDING = "check not built yet in this round of work (planned in DESIGN.md section 3); not claimed until its monitor exists"
 _built = {c["id"] for c in CHECKS}
 for n in range(1, 21):
